@@ -47,7 +47,7 @@ def case_strategy(draw):
         "metric": metric,
         "thr": draw(gen.threshold(metric)),
         "thr2": draw(gen.threshold(metric)),
-        "m2o": draw(st.booleans()),
+        "m2o": draw(st.sampled_from([False, True, None])),  # None: the constructor's default (one-to-one)
         # the pair object has been matched before by a matcher with this metric (None: fresh pair object)
         "reuse": draw(st.sampled_from([None, None, "IOU", "DSC", "ASSD"])),
     }
@@ -71,9 +71,23 @@ def runs_case(draw):
     return {"pred": pred.tolist(), "ref": ref.tolist(), "dtype": "uint8", "metric": metric, "thr": thr, "thr2": draw(gen.threshold(metric)), "m2o": draw(st.booleans())}
 
 
+@st.composite
+def large_near_tie_case(draw):
+    """One reference instance of 10^5 voxels and two candidates whose IoU differs in the fifth decimal (0.4 against
+    39999/100001): scores that any rounding to a few decimals makes equal. Given as runs."""
+    lp = draw(st.permutations([1, 2]))
+    gap = draw(st.integers(1, 5))
+    # runs: [pred label, ref label, length]
+    runs = [[lp[0], 1, 40000], [0, 1, 20001], [lp[1], 1, 39999], [lp[1], 0, 1], [0, 0, gap]]
+    if draw(st.booleans()):
+        runs = runs[::-1]
+    return {"runs": runs, "dtype": "uint8", "metric": draw(st.sampled_from(["IOU", "DSC"])), "thr": {"v": draw(st.sampled_from([0.0, 0.3]))}, "thr2": {"v": 0.35},
+            "m2o": draw(st.sampled_from([False, None])), "reuse": None}
+
+
 def searches(tier):
     n = BUDGET[tier]
-    return [("pairs", case_strategy(), n), ("runs_1d", runs_case(), n // 3)]
+    return [("pairs", case_strategy(), n), ("runs_1d", runs_case(), n // 3), ("large_near_tie", large_near_tie_case(), 2 if tier == "quick" else 8)]
 
 
 def enumerations(tier):
@@ -120,6 +134,8 @@ def read_assignment(out, pred, ref, ref_labels):
 
 
 def check(case, stats):
+    if "runs" in case:
+        case = {**case, "pred": np.concatenate([np.full(n, a) for a, b, n in case["runs"]]).tolist(), "ref": np.concatenate([np.full(n, b) for a, b, n in case["runs"]]).tolist()}
     pred = gen.with_layout(np.array(case["pred"]).astype(case["dtype"]), case.get("layout", "C"))
     ref = gen.with_layout(np.array(case["ref"]).astype(case["dtype"]), case.get("layout", "C"))
     if not pred.any() or not ref.any():
